@@ -30,7 +30,8 @@ def load_known_findings() -> List[dict]:
 
 
 class Ctx:
-    def __init__(self, prop: str, tier: str, seed: int):
+    def __init__(self, prop: str, tier: str, seed: int, replaying: bool = False):
+        self.replaying = replaying
         self.prop = prop
         self.tier = tier
         self.seed = seed
@@ -42,7 +43,7 @@ class Ctx:
         os.makedirs(EVIDENCE_DIR, exist_ok=True)
         os.makedirs(REPLAY_DIR, exist_ok=True)
         for fn in os.listdir(REPLAY_DIR):
-            if fn.startswith(f'{prop}_{tier}_'):
+            if fn.startswith(f'{prop}_{tier}_') and not replaying:
                 os.remove(os.path.join(REPLAY_DIR, fn))
         self.cov: Dict[str, Any] = {
             'states': 0, 'transitions': 0, 'traces_validated_against_impl': 0,
@@ -68,7 +69,7 @@ class Ctx:
         self.cov['model_runs'].append({'what': what, 'states_generated': gen, 'distinct_states': dis})
 
     def add_part(self, name: str, **kw):
-        d = {'part': name}
+        d = {'part': name, 'at_s': round(time.time() - self.t0, 1)}
         d.update(kw)
         self.cov['parts'].append(d)
 
@@ -97,7 +98,7 @@ class Ctx:
             self.violations.append({'what': what, 'replay': None}) if len(self.violations) < 1000 else None
             return
         self._n_replays += 1
-        path = os.path.join(REPLAY_DIR, f'{self.prop}_{self.tier}_{self._n_replays:02d}.json')
+        path = os.path.join(REPLAY_DIR, f'{self.prop}_{"replay" if self.replaying else self.tier}_{self._n_replays:02d}.json')
         with open(path, 'w') as f:
             json.dump({'property': self.prop, 'what': what, 'replay': replay}, f, indent=1)
         self.violations.append({'what': what, 'replay': path})
@@ -115,7 +116,8 @@ class Ctx:
             'coverage': cov, 'assumptions': self.assumptions, 'wall_s': round(wall, 2),
             'violations': len(self.violations),
         }
-        with open(os.path.join(EVIDENCE_DIR, f'{self.prop}.json'), 'w') as f:
+        # a replay run re-judges one stored case: it must not overwrite the evidence of the last full run
+        with open(os.path.join(self.work if self.replaying else EVIDENCE_DIR, f'{self.prop}.json'), 'w') as f:
             json.dump(ev, f, indent=1, default=str)
         for h in self.known_hits:
             print(f'KNOWN-FINDING: property={self.prop} {h["id"]}: {h["what"]}')
@@ -149,7 +151,7 @@ def main(run_fn, prop: str):
     ap.add_argument('--replay', default=None)
     args = ap.parse_args()
     seed = int(os.environ.get('VERIF_SEED', '0') or 0)
-    ctx = Ctx(prop, args.tier, seed)
+    ctx = Ctx(prop, args.tier, seed, replaying=bool(args.replay))
     try:
         run_fn(ctx, replay=args.replay) if args.replay else run_fn(ctx)
     except Exception:
